@@ -4,7 +4,10 @@ Only one clause of this property is visible in the shape of the code and necessa
 binary results in) is unit-system independent and dimensionally right.  Numerical agreement of the two solvers is not decided.
 """
 import ast
+import copy
+import re
 
+from ..symx import SymExec, State, Opaque
 from ..src import walk, calls, call_name, last_attr, dotted, norm, loc, const, AnchorError, ExtractError, parent, unparse
 from .c17 import ref_hyd, REF_FLOW
 
@@ -13,16 +16,18 @@ ESIM = "wntr/sim/epanet.py"
 UTIL = "wntr/epanet/util.py"
 
 EXPLANATION = (
-    "Static analysis of the EPANET exchange path: (R-C03-1) every result table BinFile.read produces is converted to SI with a parameter of the "
+    "Static analysis of the EPANET exchange path: (R-C03-1) BinFile.read's converting part is executed abstractly once per link-type code (0-8), status "
+    "code (0-7), quality type and convert_status flag - every mask is then a plain truth value and every table the raw block of the file plus the "
+    "conversions applied to it - and what reaches results.node / results.link must be: every result table converted to SI exactly once with a parameter of the "
     "conversion class of its physical dimension (demand/flow: flow; head: length; pressure: pressure; velocity; head loss: per-1000 for pipes, "
     "length for pumps and valves; settings: roughness for pipes with the Darcy-Weisbach flag, pressure for PRV/PSV/PBV, flow for FCV, none for "
     "TCV/GPV/pumps; quality by quality type), always with the flow-unit system read from the header of the same file; two parameters are the "
     "same class when their reference factors agree for every unit system (so HydParam.Length and HydParam.HydraulicHead are interchangeable); "
     "(R-C03-2) EpanetSimulator.run_sim writes the INP in options.hydraulic.inpfile_units, opens EPANET on that file and reads the binary file of "
     "the same run, passing the Darcy-Weisbach flag from the head-loss option; (R-C03-3) the status codes of the binary file are mapped "
-    "{0,1,2}->0 (closed), {3,5,6,7}->1 (open), {4}->2 (active), by abstract execution of the masked assignments over all eight codes. "
+    "{0,1,2}->0 (closed), {3,5,6,7}->1 (open), {4}->2 (active), read off the same abstract execution for each of the eight codes. "
     "The writer's per-field conversions are decided under C12 and the conversion constants under C17. Decides only this clause.")
-RULE_TEXT = "one instance = one result table / link-type slice, one argument of the exchange calls, one status code; distinct = distinct constructs"
+RULE_TEXT = "one instance = one result table, one (table, link-type code) or (table, quality type) pair, one argument of the exchange calls, one status code; distinct = distinct constructs"
 ASSUMPTIONS = [
     "numerical agreement of the two hydraulic engines, control timing against EPANET's timeline and the INP reader versus the toolkit are run-time facts and are NOT decided (see MANIFEST level_note)",
     "conversion classes are computed from the reference table of C17, which C17 proves equal to wntr/epanet/util.py on every run",
@@ -40,137 +45,514 @@ def conv_class(param, dw=False):
     return tuple(round(v, 15) for v in sig)
 
 
-def parse_conv(v):
-    """-> (family, member, first_arg_text, data_expr, kwargs) for HydParam.X._to_si(fu, data, ..) / to_si(fu, data, HydParam.X, ..) else None"""
-    if not isinstance(v, ast.Call):
-        return None
-    f = v.func
-    if isinstance(f, ast.Attribute) and f.attr in ("_to_si", "_from_si") and isinstance(f.value, ast.Attribute):
-        fam = unparse(f.value.value)
-        kw = {k.arg: unparse(k.value) for k in v.keywords}
-        return (fam, f.value.attr, unparse(v.args[0]) if v.args else None, v.args[1] if len(v.args) > 1 else None, kw, f.attr)
-    if isinstance(f, ast.Name) and f.id in ("to_si", "from_si") and len(v.args) >= 3 and isinstance(v.args[2], ast.Attribute):
-        kw = {k.arg: unparse(k.value) for k in v.keywords}
-        return (unparse(v.args[2].value), v.args[2].attr, unparse(v.args[0]), v.args[1], kw, "_" + f.id)
-    return None
+# ------------------------------------------------------------------ abstract reading of BinFile.read
+# The converting part of BinFile.read is EXECUTED abstractly, once per sample (link-type code of the column looked at, status code of the
+# cell looked at, quality type of the file, convert_status flag).  Under a sample every mask (`linktype < 2`, `status == 4`, np.isin(..),
+# named or not, built in a loop or not) is a plain bool, a result table is the element of one column: (block of the file it came from,
+# conversions applied to it so far), and a masked assignment updates that element iff its mask is true.  What the rules read is the value
+# that finally reaches self.results.node / self.results.link, so the way the statements are spelled (named masks, loops over valve types,
+# hoisted temporaries, lookup tables, helper functions inlined by the normaliser) does not matter.
+BLOCKS = ("demand", "head", "pressure", "quality", "flow", "velocity", "headloss", "linkquality", "linkstatus", "linksetting", "reactionrate", "frictionfactor")
+LINK_CODES = {0: "CVPIPE", 1: "PIPE", 2: "PUMP", 3: "PRV", 4: "PSV", 5: "PBV", 6: "FCV", 7: "TCV", 8: "GPV"}       # EPANET binary output file, link type codes
+STATUS_NAMES = {0: "XHead", 1: "TempClosed", 2: "Closed", 3: "Open", 4: "Active", 5: "XFlow", 6: "XFCV", 7: "XPressure"}
+
+
+class Arr(object):
+    """one sampled element of an array / table: either a number (num) or the raw value of block `src` after the conversions in `chain`."""
+
+    def __init__(self, src=None, chain=(), num=None):
+        self.src, self.chain, self.num = src, tuple(chain), num
+
+    def copy(self):
+        return Arr(self.src, self.chain, self.num)
+
+    def set(self, o):
+        self.src, self.chain, self.num = o.src, o.chain, o.num
+
+    def __repr__(self):
+        if self.num is not None:
+            return "<%r>" % (self.num,)
+        return "<%s%s>" % (self.src, "".join(" -> %s.%s.%s" % (c[0], c[1], c[2]) for c in self.chain))
+
+
+class Empty(object):
+    """the selection of no column (a mask that is false for the sampled column)."""
+
+    def __repr__(self):
+        return "<nothing>"
+
+
+class Frame(object):
+    """the DataFrame of raw blocks read from the file."""
+
+    def __repr__(self):
+        return "<raw blocks>"
+
+
+def _isnum(v):
+    return isinstance(v, (int, float)) and not isinstance(v, bool)
+
+
+class Reader(SymExec):
+    def __init__(self, sample, en, sigs):
+        SymExec.__init__(self, call_hook=self._call, attr_hook=self._attr)
+        self.sample = sample       # {"linkstatus": code, "quality": member name, "convert_status": bool}
+        self.en = en
+        self.sigs = sigs           # parameter names of HydParam._to_si / QualParam._to_si / to_si (and the _from_si twins)
+        self.problems = []
+
+    # ---- values
+    def conc(self, v):
+        if isinstance(v, Arr):
+            if v.num is not None:
+                return v.num
+            if not v.chain and v.src in self.sample:
+                return self.sample[v.src]
+            raise ExtractError("BinFile.read: a test on the values of %r is not interpreted" % (v,))
+        return v
+
+    def _attr(self, base, attr, st):
+        if isinstance(base, Opaque) and base.text == "EN" and attr in self.en:
+            return self.en[attr]
+        if isinstance(base, Opaque) and base.text == "self" and attr == "convert_status":
+            return self.sample["convert_status"]
+        if isinstance(base, Opaque) and base.text == "self" and attr == "quality_type":
+            return Opaque("QualType." + self.sample["quality"])
+        if isinstance(base, Arr) and attr == "values":
+            return base.copy()
+        if isinstance(base, Empty) and attr == "values":
+            return base
+        return NotImplemented
+
+    @staticmethod
+    def _member(v):
+        return isinstance(v, Opaque) and re.match(r"^QualType\.\w+$", v.text) is not None
+
+    def compare(self, op, a, b):
+        a, b = self.conc(a), self.conc(b)
+        opn = type(op).__name__
+        plain = lambda v: v is None or isinstance(v, (bool, int, float, str))
+        if plain(a) and plain(b) and opn in ("Is", "Eq", "IsNot", "NotEq"):      # also for operands that cannot be ordered (None against None / a number)
+            return (a is b or a == b) == (opn in ("Is", "Eq"))
+        other = b if a is None else a
+        if opn in ("Is", "IsNot") and (a is None or b is None) and (isinstance(other, (Arr, Frame)) or (isinstance(other, Opaque) and re.match(r"^(HydParam|QualParam|QualType)\.\w+$", other.text))):
+            return opn == "IsNot"           # a member of an enumeration, a table: not None
+        if self._member(a) and self._member(b) and opn in ("Is", "Eq", "IsNot", "NotEq"):
+            return (a.text == b.text) == (opn in ("Is", "Eq"))
+        if self._member(a) and isinstance(b, (list, tuple)) and all(self._member(x) for x in b) and opn in ("In", "NotIn"):
+            return (a.text in [x.text for x in b]) == (opn == "In")
+        return SymExec.compare(self, op, a, b)
+
+    def binop(self, op, a, b, n=None):
+        if isinstance(a, bool) and isinstance(b, bool) and isinstance(op, (ast.BitAnd, ast.BitOr, ast.BitXor)):
+            return (a and b) if isinstance(op, ast.BitAnd) else (a or b) if isinstance(op, ast.BitOr) else (a != b)
+        return SymExec.binop(self, op, a, b, n)
+
+    def e_UnaryOp(self, n, st):
+        if isinstance(n.op, ast.Invert):
+            v = self.ev(n.operand, st)
+            if isinstance(v, bool):
+                return not v
+            raise ExtractError("BinFile.read: ~ of %r is not interpreted" % (v,))
+        return SymExec.e_UnaryOp(self, n, st)
+
+    def selection(self, key):
+        """index expression -> True / False (boolean mask under the sample) or None (everything)."""
+        sel = None
+        for k in (key if isinstance(key, tuple) else (key,)):
+            if isinstance(k, bool):
+                sel = k if sel is None else (sel and k)
+            elif (isinstance(k, Opaque) and k.text == ":") or k is Ellipsis:
+                continue
+            else:
+                raise ExtractError("BinFile.read: index %r of a result array is not interpreted" % (k,))
+        return sel
+
+    def e_Subscript(self, n, st):
+        base = self.ev(n.value, st)
+        if isinstance(base, (Frame, Arr, Empty)) or (isinstance(base, (list, tuple)) and base and all(_isnum(x) for x in base)):
+            key = self.ev(n.slice, st)
+            if isinstance(base, Frame):
+                if isinstance(key, str):
+                    return Arr(src=key)
+                raise ExtractError("BinFile.read: block %r of the raw results is not interpreted" % (key,))
+            if isinstance(base, Empty):
+                return base
+            if isinstance(base, Arr):
+                sel = self.selection(key)
+                return base if sel is None else (base.copy() if sel else Empty())
+            if isinstance(key, Arr):          # lookup table indexed by the values of an array
+                k = self.conc(key)
+                if isinstance(k, int) and 0 <= k < len(base):
+                    return Arr(num=base[k])
+                raise ExtractError("BinFile.read: lookup table has no entry %r" % (k,))
+        return SymExec.e_Subscript(self, n, st)
+
+    def assign(self, t, v, st, stmt=None):
+        if isinstance(t, ast.Subscript):
+            base = self.ev(t.value, st)
+            if isinstance(base, Frame):
+                raise ExtractError("BinFile.read: the raw blocks are modified in place")
+            if isinstance(base, Arr):
+                sel = self.selection(self.ev(t.slice, st))
+                ln = getattr(stmt, "lineno", 0)
+                if sel is False:
+                    if isinstance(v, Arr):
+                        self.problems.append((ln, "a selection of other columns is stored into %s" % unparse(t)))
+                    return
+                if isinstance(v, Empty):
+                    self.problems.append((ln, "%s is filled from a selection of other columns" % unparse(t)))
+                elif isinstance(v, Arr):
+                    base.set(v)
+                elif _isnum(v):
+                    base.set(Arr(num=v))
+                else:
+                    raise ExtractError("BinFile.read: value stored into %s is not interpreted: %r" % (unparse(t), v))
+                return
+            if isinstance(base, (dict, list)):
+                return SymExec.assign(self, t, v, st, stmt)
+        if isinstance(t, (ast.Attribute, ast.Subscript)):
+            v = copy.deepcopy(v)          # what is published is the value at this moment
+        return SymExec.assign(self, t, v, st, stmt)
+
+    # ---- calls
+    def convert(self, param, direction, names, args, kwargs, n):
+        """one conversion call, its arguments bound by the parameter names of the callee (positional or keyword)"""
+        m = re.match(r"^(HydParam|QualParam)\.(\w+)$", param.text) if isinstance(param, Opaque) else None
+        if m is None:
+            raise ExtractError("BinFile.read: conversion parameter %r is not resolved (line %s)" % (param, n.lineno))
+        fam, member = m.groups()
+        if names is None:
+            names = self.sigs[(fam, direction)]
+        if len(args) > len(names):
+            raise ExtractError("BinFile.read: too many arguments in %s" % unparse(n))
+        bound = dict(zip(names, args))
+        bound.update(kwargs)
+        data = bound.get("data")
+        fu = bound.get(names[0])
+        conv = (fam, member, direction, self.text(fu) if fu is not None else None,
+                self.text(bound["darcy_weisbach"]) if "darcy_weisbach" in bound else None, self.text(bound["mass_units"]) if "mass_units" in bound else None, n.lineno)
+        if isinstance(data, Empty):
+            return data
+        if isinstance(data, Arr) and data.num is None:
+            return Arr(data.src, data.chain + (conv,))
+        raise ExtractError("BinFile.read: converted value %r is not a block of the file (line %s)" % (data, n.lineno))
+
+    def _call(self, name, n, args, kwargs, st, ex, recv):
+        last = (name or "").split(".")[-1]
+        meth = n.func.attr if isinstance(n.func, ast.Attribute) else None
+        if meth in ("_to_si", "_from_si"):
+            return self.convert(recv if recv is not None else self.ev(n.func.value, st), meth, None, args, kwargs, n)
+        if last in ("to_si", "from_si") and dotted(n.func) is not None:
+            names = self.sigs[("", last)]
+            bound = dict(zip(names, args))
+            bound.update(kwargs)
+            if len(args) > len(names) or "param" not in bound:
+                raise ExtractError("BinFile.read: arguments of %s are not interpreted" % unparse(n))
+            p = bound.pop("param")
+            return self.convert(p, "_" + last, names, [], bound, n)
+        first = args[0] if args else kwargs.get("data")
+        if name in ("np.array", "np.asarray", "np.asanyarray", "np.copy", "np.ascontiguousarray", "numpy.array", "numpy.asarray", "pd.DataFrame", "pandas.DataFrame"):
+            if isinstance(first, Arr):
+                return first.copy()
+            if isinstance(first, Empty) or (isinstance(first, (list, tuple)) and all(_isnum(x) for x in first)) or _isnum(first):
+                return first
+        if recv is not None and isinstance(recv, (Arr, Empty)) and meth in ("copy", "to_numpy", "astype", "view"):
+            return recv.copy() if isinstance(recv, Arr) else recv
+        if recv is not None and _isnum(recv) and meth in ("copy", "astype", "view"):
+            return recv
+        if name in ("np.where", "np.nonzero", "np.flatnonzero", "numpy.where") and len(args) == 1 and isinstance(args[0], bool):
+            return args[0] if last == "flatnonzero" else (args[0],)
+        if name in ("np.where", "numpy.where") and len(args) == 3 and isinstance(args[0], bool):
+            return args[1] if args[0] else args[2]
+        if name in ("np.logical_and", "np.logical_or", "np.logical_xor") and len(args) == 2 and all(isinstance(a, bool) for a in args):
+            return self.binop({"and": ast.BitAnd(), "or": ast.BitOr(), "xor": ast.BitXor()}[last.split("_")[1]], args[0], args[1])
+        if name == "np.logical_not" and len(args) == 1 and isinstance(args[0], bool):
+            return not args[0]
+        if name in ("np.isin", "np.in1d") and len(args) == 2 and isinstance(args[1], (list, tuple)) and all(_isnum(x) for x in args[1]):
+            v = self.conc(args[0])
+            if _isnum(v):
+                return v in list(args[1])
+        if name == "QualType" and len(args) == 1:       # the quality type recorded in the file
+            return Opaque("QualType." + self.sample["quality"])
+        return NotImplemented
+
+
+def _bindings(fn, skip):
+    """name -> list of the statements of fn (outside the statements in `skip`) that bind it; a binding that is not a plain `name = value` is recorded as None"""
+    skipped = set()
+    for s in skip:
+        skipped.update(id(x) for x in ast.walk(s))
+    out = {}
+    for n in walk(fn):
+        if id(n) in skipped:
+            continue
+        if isinstance(n, ast.Assign) and len(n.targets) == 1 and isinstance(n.targets[0], ast.Name):
+            out.setdefault(n.targets[0].id, []).append(n)
+        elif isinstance(n, ast.Name) and isinstance(n.ctx, (ast.Store, ast.Del)) and not (isinstance(parent(n), ast.Assign) and parent(n).targets == [n]):
+            out.setdefault(n.id, []).append(None)
+        elif isinstance(n, ast.ExceptHandler) and n.name:
+            out.setdefault(n.name, []).append(None)
+    return out
+
+
+def _loaded(node):
+    return {x.id for x in ast.walk(node) if isinstance(x, ast.Name) and isinstance(x.ctx, ast.Load)}
+
+
+def read_plan(repo, rd):
+    """-> (region, prelude, link-type name, raw-frame name): the statements of BinFile.read that run from the first test of `convert` to the end
+    of its block, and the single-assignment temporaries defined before it that those statements (transitively) use."""
+    params = [a.arg for a in rd.args.args]
+    if "convert" not in params:
+        raise ExtractError("BinFile.read has no `convert` parameter")
+    tests = [n for n in walk(rd) if isinstance(n, ast.If) and "convert" in _loaded(n.test)]
+    outer = [n for n in tests if not any(n is not m and any(n is x for x in ast.walk(m)) for m in tests)]
+    if not outer:
+        raise ExtractError("BinFile.read: no test of `convert` found")
+    first = min(outer, key=lambda n: n.lineno)
+    blk = None
+    p = parent(first)
+    for fld in ("body", "orelse", "finalbody"):
+        if isinstance(getattr(p, fld, None), list) and any(first is x for x in getattr(p, fld)):
+            blk = getattr(p, fld)
+    if blk is None:
+        raise ExtractError("BinFile.read: block of the `convert` test not found")
+    region = blk[[i for i, x in enumerate(blk) if x is first][0]:]
+    binds = _bindings(rd, region)
+    # roots: the array of link types (what is compared with EN's link-type codes) and the frame of raw blocks (what is indexed by block name)
+    lt = set()
+    for n in walk(rd):
+        if isinstance(n, ast.Compare) and len(n.ops) == 1:
+            for x, y in ((n.left, n.comparators[0]), (n.comparators[0], n.left)):
+                if isinstance(x, ast.Name) and dotted(y) in ["EN." + v for v in LINK_CODES.values()]:
+                    lt.add(x.id)
+    if not lt and "linktype" in binds:
+        lt = {"linktype"}
+    if len(lt) != 1:
+        raise ExtractError("BinFile.read: the array of link types is not identified (%s)" % sorted(lt))
+    fr = set()
+    for s in region:
+        for n in ast.walk(s):
+            if isinstance(n, ast.Subscript) and isinstance(n.value, ast.Name) and const(n.slice) in BLOCKS and isinstance(n.ctx, ast.Load):
+                fr.add(n.value.id)
+    fr -= lt
+    if len(fr) != 1:
+        raise ExtractError("BinFile.read: the frame of raw result blocks is not identified (%s)" % sorted(fr))
+    roots = lt | fr | set(params)
+    need, todo, prelude = set(), set(), []
+    for s in region:
+        todo |= _loaded(s)
+    while todo:
+        nm = todo.pop()
+        if nm in need or nm in roots:
+            continue
+        need.add(nm)
+        d = binds.get(nm, [])
+        if len(d) == 1 and d[0] is not None and d[0].lineno < first.lineno:
+            prelude.append(d[0])
+            todo |= _loaded(d[0].value)
+    prelude.sort(key=lambda s: s.lineno)
+    return region, prelude, lt.pop(), fr.pop(), binds
+
+
+def read_published(rd, plan, sample, code, en, sigs, chains):
+    """abstract run of the converting part of BinFile.read under one sample -> ([(tables, problems)] per path, texts); tables: ('node'|'link', key) ->
+    (value, line); texts: attr -> the texts under which the value of self.<attr> is known to the statements of the run"""
+    region, prelude, ltname, frname, _ = plan
+    ex = Reader(sample, en, sigs)
+    env = {a.arg: Opaque(a.arg) for a in rd.args.args}
+    env["convert"] = True
+    env[ltname] = code
+    env[frname] = Frame()
+    st = State(env)
+    for s in prelude:
+        try:
+            keep = copy.deepcopy(st.env)
+            ex.stmt(s, st)
+        except ExtractError:
+            st.env = keep       # a temporary this reading cannot evaluate stays an unknown: whatever needs it fails to be interpreted below
+            st.env.pop(s.targets[0].id, None)
+    texts = {}
+    for attr, exprs in chains.items():
+        texts[attr] = {"self." + attr}
+        for x in exprs:
+            try:
+                texts[attr].add(ex.text(ex.ev(x, st.fork())))
+            except ExtractError:
+                pass
+    st.events = []
+    outs = []
+    for o in ex.block(region, [st]):
+        if o.raised is not None:
+            continue
+        tables = {}
+        for e in o.events:
+            if e[0] != "store":
+                continue
+            m = re.match(r"^self\.results\.(node|link)(?:\[(.+)\])?$", e[1])
+            if not m:
+                continue
+            if m.group(2) is None:
+                if not isinstance(e[2], dict):
+                    raise ExtractError("BinFile.read: results.%s replaced by %r" % (m.group(1), e[2]))
+                for k in [k for k in tables if k[0] == m.group(1)]:
+                    del tables[k]
+                for k, v in e[2].items():
+                    tables[(m.group(1), k)] = (v, e[3])
+            else:
+                try:
+                    k = ast.literal_eval(m.group(2))
+                except (ValueError, SyntaxError):
+                    raise ExtractError("BinFile.read: results key %s is not a constant" % m.group(2))
+                tables[(m.group(1), k)] = (e[2], e[3])
+        outs.append((tables, list(ex.problems)))
+    if not outs:
+        raise ExtractError("BinFile.read: no path through the converting branch")
+    return outs, texts
+
+
+def _chain_of(rd, attr, binds):
+    """the expressions whose value is the one stored in self.<attr> by BinFile.read: the stored expression, and while that is a local with a single
+    definition, its definition.  -> (expressions, store statements)"""
+    st = [a for a in walk(rd) if isinstance(a, ast.Assign) and any(unparse(t) == "self." + attr for t in a.targets)]
+    exprs = []
+    if len(st) == 1:
+        v = st[0].value
+        for _ in range(6):
+            exprs.append(v)
+            d = binds.get(v.id, []) if isinstance(v, ast.Name) else []
+            if len(d) == 1 and d[0] is not None:
+                v = d[0].value
+            else:
+                break
+    return exprs, st
 
 
 def run(repo, chk):
     rd = repo.func(EIO, "BinFile.read")
     chk.fn(rd)
-    conv_if = [n for n in walk(rd) if isinstance(n, ast.If) and unparse(n.test) == "convert"]
-    if len(conv_if) != 1:
-        raise ExtractError("BinFile.read: `if convert:` not found")
-    body = conv_if[0].body
-    mod = ast.Module(body=body, type_ignores=[])
-
-    # ---------------------------------------------------------------- R-C03-1
-    want_tables = {
-        ("node", "demand"): ("HydParam", "Flow", "demand"),
-        ("node", "head"): ("HydParam", "Length", "head"),
-        ("node", "pressure"): ("HydParam", "Pressure", "pressure"),
-        ("link", "flowrate"): ("HydParam", "Flow", "flow"),
-        ("link", "velocity"): ("HydParam", "Velocity", "velocity"),
-    }
-    seen = set()
-    for a in walk(mod):
-        if not isinstance(a, ast.Assign) or not isinstance(a.targets[0], ast.Subscript):
-            continue
-        tg = a.targets[0]
-        base = unparse(tg.value)
-        if base in ("self.results.node", "self.results.link") and isinstance(const(tg.slice), str):
-            key = (base.rsplit(".", 1)[1], const(tg.slice))
-            pc = parse_conv(a.value)
-            if key in want_tables:
-                fam, ref, col = want_tables[key]
-                seen.add(key)
-                ok = pc is not None and pc[0] == fam and conv_class(pc[1]) == conv_class(ref) and pc[2] == "self.flow_units" and pc[5] == "_to_si" \
-                    and pc[3] is not None and unparse(pc[3]) == "df['%s']" % col
-                chk.expect(ok, "R-C03-1", "results.%s['%s'] = to_si(file's flow units, df['%s']) with a parameter of the %s class" % (key[0], key[1], col, ref), loc(rd, a),
-                           "EPANET writes its results in the unit system of the INP file; the table must be converted with the conversion of its physical dimension",
-                           expected="%s class %s" % (ref, conv_class(ref)), found=norm(a.value))
-            elif key[1] == "quality" and pc is not None:
-                g = parent(a)
-                t = unparse(g.test) if isinstance(g, ast.If) else ""
-                wantq = "Concentration" if "QualType.Chem" in t else ("WaterAge" if "QualType.Age" in t else None)
-                seen.add(key + (wantq,))
-                chk.expect(wantq is not None and pc[0] == "QualParam" and pc[1] == wantq and pc[2] == "self.flow_units" and pc[4].get("mass_units") == "self.mass_units", "R-C03-1",
-                           "results.%s['quality'] under %s is converted as QualParam.%s with the file's mass units" % (key[0], t or "?", wantq), loc(rd, a), found=norm(a.value))
-    for key in want_tables:
-        if key not in seen:
-            chk.bad("R-C03-1", "results.%s['%s'] is produced by BinFile.read" % key, loc(rd), "table missing from the converting branch")
-    # masked slices: headloss and setting
-    masks = {}
-    for a in walk(mod):
-        if isinstance(a, ast.Assign) and isinstance(a.targets[0], ast.Subscript) and isinstance(a.targets[0].value, ast.Name) and a.targets[0].value.id in ("headloss", "setting"):
-            sl = a.targets[0].slice
-            m = unparse(sl.elts[1]) if isinstance(sl, ast.Tuple) and len(sl.elts) == 2 else unparse(sl)
-            masks[(a.targets[0].value.id, m)] = a
-    want_masks = {
-        ("headloss", "linktype < 2"): ("HeadLoss", False), ("headloss", "linktype >= 2"): ("Length", False),
-        ("setting", "linktype == EN.PIPE"): ("RoughnessCoeff", True), ("setting", "linktype == EN.PRV"): ("Pressure", False),
-        ("setting", "linktype == EN.PSV"): ("Pressure", False), ("setting", "linktype == EN.PBV"): ("Pressure", False),
-        ("setting", "linktype == EN.FCV"): ("Flow", False),
-    }
-    for key, (ref, dwflag) in sorted(want_masks.items()):
-        a = masks.get(key)
-        if a is None:
-            chk.bad("R-C03-1", "%s[%s] is converted" % key, loc(rd), "slice missing from BinFile.read", expected=ref)
-            continue
-        pc = parse_conv(a.value)
-        ok = pc is not None and pc[0] == "HydParam" and conv_class(pc[1], dwflag) == conv_class(ref, dwflag) and pc[2] == "self.flow_units" and pc[5] == "_to_si" \
-            and pc[3] is not None and unparse(pc[3]) == unparse(a.targets[0])
-        if dwflag:
-            ok = ok and pc[4].get("darcy_weisbach") == "darcy_weisbach"
-        chk.expect(ok, "R-C03-1", "%s[%s] is converted in place with a parameter of the %s class%s" % (key[0], key[1], ref, " (Darcy-Weisbach flag forwarded)" if dwflag else ""), loc(rd, a),
-                   expected="%s class" % ref, found=norm(a.value))
-    for key in masks:
-        if key not in want_masks:
-            chk.bad("R-C03-1", "%s[%s] must not be converted (dimensionless setting or unknown slice)" % key, loc(rd, masks[key]),
-                    "TCV loss coefficients, GPV curve ids and pump speeds are dimensionless", found=norm(masks[key].value))
-    # EN link-type codes used by the masks: pipes are 0/1, everything >= 2 is a pump or valve
+    plan = read_plan(repo, rd)
+    binds = plan[4]
     en = {}
     for n in repo.cls(UTIL, "EN").body:
-        if isinstance(n, ast.Assign) and isinstance(n.targets[0], ast.Name) and n.targets[0].id in ("CVPIPE", "PIPE", "PUMP", "PRV", "PSV", "PBV", "FCV", "TCV", "GPV"):
+        if isinstance(n, ast.Assign) and isinstance(n.targets[0], ast.Name) and isinstance(const(n.value), int):
             en[n.targets[0].id] = const(n.value)
-    chk.expect(en == {"CVPIPE": 0, "PIPE": 1, "PUMP": 2, "PRV": 3, "PSV": 4, "PBV": 5, "FCV": 6, "TCV": 7, "GPV": 8}, "R-C03-1",
-               "EN link-type codes match the binary file's (pipes 0-1, pump 2, valves 3-8), so `linktype < 2` selects exactly the pipes", UTIL, found=en)
-    # the unit system is the one recorded in the file itself
-    fu = [a for a in walk(rd) if isinstance(a, ast.Assign) and unparse(a.targets[0]) == "self.flow_units"]
-    src = [a for a in walk(rd) if isinstance(a, ast.Assign) and unparse(a.targets[0]) == "flowunits"]
-    chk.expect(len(fu) == 1 and unparse(fu[0].value) == "flowunits" and len(src) == 1 and unparse(src[0].value) == "FlowUnits(prolog[9])", "R-C03-1",
-               "the flow-unit system used for every conversion is the one recorded in the binary file's prolog (word 9)", loc(rd), found=[norm(x) for x in fu + src])
-    chk.floor("R-C03-1", 5 + 7 + 2)
+    quals = [n.targets[0].id for n in repo.cls(UTIL, "QualType").body if isinstance(n, ast.Assign) and isinstance(n.targets[0], ast.Name) and isinstance(const(n.value), int)]
+    if "Chem" not in quals or "Age" not in quals:
+        raise ExtractError("QualType members Chem / Age not found in %s" % UTIL)
+    sigs = {}
+    for fam in ("HydParam", "QualParam"):
+        for d in ("_to_si", "_from_si"):
+            sigs[(fam, d)] = [a.arg for a in repo.func(UTIL, "%s.%s" % (fam, d)).args.args[1:]]
+    for d in ("to_si", "from_si"):
+        sigs[("", d)] = [a.arg for a in repo.func(UTIL, d).args.args]
+    fu_chain, fu_st = _chain_of(rd, "flow_units", binds)
+    mu_chain, mu_st = _chain_of(rd, "mass_units", binds)
+
+    facts = {}      # (rule, construct) -> [ok, line, detail, expected, found]; one instance per construct, the first failing sample is reported
+
+    def fact(rule, construct, ok, line, detail=None, expected=None, found=None):
+        f = facts.setdefault((rule, construct), [True, line, detail, expected, None])
+        if not ok and f[0]:
+            f[0], f[1], f[4] = False, line, found
+
+    def one(v, src, fam, ref, texts, dw=False, mass=False):
+        """v is block `src` of the file converted exactly once, to SI, with the file's flow units and a parameter of the class of `ref`"""
+        if not (isinstance(v, Arr) and v.num is None and v.src == src and len(v.chain) == 1):
+            return False
+        c = v.chain[0]
+        ok = c[0] == fam and c[2] == "_to_si" and c[3] in texts["flow_units"]
+        if fam == "HydParam":
+            ok = ok and conv_class(ref, dw) is not None and conv_class(c[1], dw) == conv_class(ref, dw)
+        else:
+            ok = ok and c[1] == ref
+        if dw:
+            ok = ok and c[4] == "darcy_weisbach"
+        if mass:
+            ok = ok and c[5] in texts["mass_units"]
+        return ok
+
+    def raw(v, src):
+        return isinstance(v, Arr) and v.num is None and v.src == src and not v.chain
+
+    want_tables = {
+        ("node", "demand"): ("Flow", "demand"),
+        ("node", "head"): ("Length", "head"),
+        ("node", "pressure"): ("Pressure", "pressure"),
+        ("link", "flowrate"): ("Flow", "flow"),
+        ("link", "velocity"): ("Velocity", "velocity"),
+    }
+    # per link type: class of the head-loss conversion, (class of the setting conversion, Darcy-Weisbach flag needed)
+    want_links = {"CVPIPE": ("HeadLoss", None), "PIPE": ("HeadLoss", ("RoughnessCoeff", True)), "PUMP": ("Length", None), "PRV": ("Length", ("Pressure", False)),
+                  "PSV": ("Length", ("Pressure", False)), "PBV": ("Length", ("Pressure", False)), "FCV": ("Length", ("Flow", False)), "TCV": ("Length", None), "GPV": ("Length", None)}
+    want_quality = {"Chem": "Concentration", "Age": "WaterAge"}
+    want_status = {0: 0, 1: 0, 2: 0, 3: 1, 4: 2, 5: 1, 6: 1, 7: 1}
+    here = lambda ln: "%s:%s" % (EIO, ln or rd.lineno)
+    for q in quals:
+        for cs in (True, False):
+            for code in sorted(LINK_CODES):
+                for s in sorted(STATUS_NAMES):
+                    sample = {"quality": q, "convert_status": cs, "linkstatus": s}
+                    outs, texts = read_published(rd, plan, sample, code, en, sigs, {"flow_units": fu_chain, "mass_units": mu_chain})
+                    for tables, problems in outs:
+                        get = lambda k: tables.get(k, (None, None))
+                        for key, (ref, col) in want_tables.items():
+                            v, ln = get(key)
+                            fact("R-C03-1", "results.%s['%s'] = to_si(file's flow units, df['%s']) with a parameter of the %s class" % (key[0], key[1], col, ref), one(v, col, "HydParam", ref, texts), ln,
+                                 "EPANET writes its results in the unit system of the INP file; the table must be converted with the conversion of its physical dimension",
+                                 expected="%s class %s" % (ref, conv_class(ref)), found="%r (quality type %s, link type %d)" % (v, q, code))
+                        lname = LINK_CODES[code]
+                        hl, st_ = want_links[lname]
+                        v, ln = get(("link", "headloss"))
+                        fact("R-C03-1", "head loss of %s links (link type %d) is converted once, with a parameter of the %s class" % (lname, code, hl), one(v, "headloss", "HydParam", hl, texts), ln,
+                             "EPANET reports head loss per 1000 length units for pipes and as a head difference for pumps and valves", expected="%s class" % hl, found=repr(v))
+                        v, ln = get(("link", "setting"))
+                        if st_ is None:
+                            fact("R-C03-1", "setting of %s links (link type %d) is not converted" % (lname, code), raw(v, "linksetting"), ln,
+                                 "TCV loss coefficients, GPV curve ids, pump speeds and the roughness of CV pipes are reported as they are", expected="unconverted", found=repr(v))
+                        else:
+                            fact("R-C03-1", "setting of %s links (link type %d) is converted once, with a parameter of the %s class%s" % (lname, code, st_[0], " (Darcy-Weisbach flag forwarded)" if st_[1] else ""),
+                                 one(v, "linksetting", "HydParam", st_[0], texts, dw=st_[1]), ln, expected="%s class" % st_[0], found=repr(v))
+                        for tab, col in (("node", "quality"), ("link", "linkquality")):
+                            v, ln = get((tab, "quality"))
+                            if q in want_quality:
+                                fact("R-C03-1", "results.%s['quality'] of a file with quality type %s is converted as QualParam.%s%s" % (tab, q, want_quality[q], " with the file's mass units" if q == "Chem" else ""),
+                                     one(v, col, "QualParam", want_quality[q], texts, mass=(q == "Chem")), ln, found=repr(v))
+                            else:
+                                fact("R-C03-1", "results.%s['quality'] of a file with quality type %s is not converted" % (tab, q), raw(v, col), ln, found=repr(v))
+                        fact("R-C03-1", "every masked conversion reads the columns it writes", not problems, problems[0][0] if problems else None,
+                             "a conversion computed on the columns of one link type and stored into those of another mixes up links", found=problems[0][1] if problems else None)
+                        if cs:
+                            v, ln = get(("link", "status"))
+                            got = v.num if isinstance(v, Arr) and v.num is not None else (s if raw(v, "linkstatus") else None)
+                            fact("R-C03-3", "EPANET status code %d (%s) is reported as %d" % (s, STATUS_NAMES[s], want_status[s]), got == want_status[s], ln,
+                                 "status timelines of the two simulators are compared as 0 closed / 1 open / 2 active", expected=want_status[s], found=got if got is not None else repr(v))
+    for (rule, construct), (ok, ln, detail, expected, found) in facts.items():
+        if rule == "R-C03-1":
+            chk.expect(ok, rule, construct, here(ln), detail, expected=expected, found=found)
+    # EN link-type codes used by the masks: pipes are 0/1, everything >= 2 is a pump or valve
+    chk.expect({k: en.get(k) for k in LINK_CODES.values()} == {v: k for k, v in LINK_CODES.items()}, "R-C03-1",
+               "EN link-type codes match the binary file's (pipes 0-1, pump 2, valves 3-8), so `linktype < 2` selects exactly the pipes", UTIL, found={k: en.get(k) for k in LINK_CODES.values()})
+    # the unit system is the one recorded in the file itself: self.flow_units is FlowUnits(word 9 of the first record read from the file)
+    fdef = fu_chain[-1] if fu_chain else None
+    reads = [c for c in calls(rd) if last_attr(c) == "fromfile"]
+    ok = len(fu_st) == 1 and isinstance(fdef, ast.Call) and call_name(fdef) == "FlowUnits" and len(fdef.args) == 1 and isinstance(fdef.args[0], ast.Subscript) \
+        and const(fdef.args[0].slice) == 9 and isinstance(fdef.args[0].value, ast.Name)
+    if ok:
+        d = binds.get(fdef.args[0].value.id, [])
+        ok = len(d) == 1 and d[0] is not None and bool(reads) and d[0].value is reads[0]
+    chk.expect(ok, "R-C03-1", "the flow-unit system used for every conversion is the one recorded in the binary file's prolog (word 9)", loc(rd), found=[norm(x) for x in fu_st] + [norm(x) for x in fu_chain])
+    chk.floor("R-C03-1", 5 + 9 + 9 + 8 + 1 + 2)
 
     # ---------------------------------------------------------------- R-C03-3 status mapping
-    st = [n for n in walk(mod) if isinstance(n, ast.If) and unparse(n.test) == "self.convert_status"]
-    if not st:
-        raise ExtractError("BinFile.read: status conversion not found")
-    table = {c: c for c in range(8)}
-    for a in st[0].body:
-        if not (isinstance(a, ast.Assign) and isinstance(a.targets[0], ast.Subscript) and unparse(a.targets[0].value) == "status"):
-            raise ExtractError("status conversion: statement not interpreted: %s" % norm(a))
-        cmp_ = a.targets[0].slice
-        if not (isinstance(cmp_, ast.Compare) and unparse(cmp_.left) == "status" and len(cmp_.ops) == 1 and isinstance(const(cmp_.comparators[0]), int) and isinstance(const(a.value), int)):
-            raise ExtractError("status conversion: mask not interpreted: %s" % norm(a))
-        k, v = const(cmp_.comparators[0]), const(a.value)
-        op = cmp_.ops[0]
-        for c in table:
-            cur = table[c]
-            hit = (isinstance(op, ast.LtE) and cur <= k) or (isinstance(op, ast.Lt) and cur < k) or (isinstance(op, ast.Eq) and cur == k) or \
-                (isinstance(op, ast.GtE) and cur >= k) or (isinstance(op, ast.Gt) and cur > k)
-            if hit:
-                table[c] = v
-    want = {0: 0, 1: 0, 2: 0, 3: 1, 4: 2, 5: 1, 6: 1, 7: 1}
-    names = {0: "XHead", 1: "TempClosed", 2: "Closed", 3: "Open", 4: "Active", 5: "XFlow", 6: "XFCV", 7: "XPressure"}
-    for c in range(8):
-        chk.expect(table[c] == want[c], "R-C03-3", "EPANET status code %d (%s) is reported as %d" % (c, names[c], want[c]), loc(rd, st[0]),
-                   "status timelines of the two simulators are compared as 0 closed / 1 open / 2 active", expected=want[c], found=table[c])
+    for (rule, construct), (ok, ln, detail, expected, found) in facts.items():
+        if rule == "R-C03-3":
+            chk.expect(ok, rule, construct, here(ln), detail, expected=expected, found=found)
     init = repo.func(EIO, "BinFile.__init__")
     d = {a.arg: const(dv) for a, dv in zip(init.args.args[-len(init.args.defaults):], init.args.defaults)}
     chk.expect(d.get("convert_status") is True, "R-C03-3", "status conversion is on by default", loc(init), found=d.get("convert_status"))
     chk.floor("R-C03-3", 9)
-
     # ---------------------------------------------------------------- R-C03-2 same file, same units
     rs = repo.func(ESIM, "EpanetSimulator.run_sim")
     chk.fn(rs)
@@ -218,6 +600,71 @@ WITNESSES = [
     dict(name="status-active-reported-open", file=EIO, old="                    status[status == 4] = 2\n", new="                    status[status >= 4] = 1\n", rule="R-C03-3"),
     dict(name="status-order-breaks-table", file=EIO, old="                    status[status <= 2] = 0\n                    status[status == 3] = 1\n                    status[status >= 5] = 1\n                    status[status == 4] = 2\n",
          new="                    status[status == 4] = 2\n                    status[status <= 2] = 0\n                    status[status == 3] = 1\n                    status[status >= 5] = 1\n", rule="R-C03-3"),
+    # BinFile.read is executed abstractly per link type / status code / quality type, so the spelling of the masked conversions must not matter ...
+    dict(name="named-masks-and-valve-loop", file=EIO,
+         old="                headloss[:, linktype < 2] = to_si(self.flow_units, headloss[:, linktype < 2], HydParam.HeadLoss) # Pipe or CV\n"
+             "                headloss[:, linktype >= 2] = to_si(self.flow_units, headloss[:, linktype >= 2], HydParam.Length) # Pump or Valve\n",
+         new="                is_pipe = linktype < 2\n                others = ~is_pipe\n"
+             "                headloss[:, is_pipe] = to_si(self.flow_units, headloss[:, is_pipe], HydParam.HeadLoss)\n"
+             "                headloss[:, others] = to_si(self.flow_units, headloss[:, others], HydParam.Length)\n",
+         also=[("                setting[:, linktype == EN.PRV] = to_si(self.flow_units, setting[:, linktype == EN.PRV], HydParam.Pressure)\n"
+                "                setting[:, linktype == EN.PSV] = to_si(self.flow_units, setting[:, linktype == EN.PSV], HydParam.Pressure)\n"
+                "                setting[:, linktype == EN.PBV] = to_si(self.flow_units, setting[:, linktype == EN.PBV], HydParam.Pressure)\n",
+                "                for vt in (EN.PRV, EN.PSV, EN.PBV):\n                    sel = linktype == vt\n"
+                "                    setting[:, sel] = to_si(self.flow_units, setting[:, sel], HydParam.Pressure)\n")], silent=True),
+    dict(name="pressure-valves-one-mask-and-table-driven", file=EIO,
+         old="                setting[:, linktype == EN.PRV] = to_si(self.flow_units, setting[:, linktype == EN.PRV], HydParam.Pressure)\n"
+             "                setting[:, linktype == EN.PSV] = to_si(self.flow_units, setting[:, linktype == EN.PSV], HydParam.Pressure)\n"
+             "                setting[:, linktype == EN.PBV] = to_si(self.flow_units, setting[:, linktype == EN.PBV], HydParam.Pressure)\n"
+             "                setting[:, linktype == EN.FCV] = to_si(self.flow_units, setting[:, linktype == EN.FCV], HydParam.Flow)\n",
+         new="                pvalve = np.isin(linktype, (EN.PRV, EN.PSV, EN.PBV))\n"
+             "                for cols, prm in ((pvalve, HydParam.Pressure), (linktype == EN.FCV, HydParam.Flow)):\n"
+             "                    setting[:, cols] = prm._to_si(self.flow_units, setting[:, cols])\n", silent=True),
+    dict(name="conversion-spelled-the-other-way", file=EIO,
+         old="self.results.link['flowrate'] = HydParam.Flow._to_si(self.flow_units, df['flow'])",
+         new="flows = df['flow']\n                self.results.link['flowrate'] = to_si(flowunits, flows, param=HydParam.Flow)",
+         also=[("HydParam.RoughnessCoeff, \n                                                darcy_weisbach=darcy_weisbach)", "HydParam.RoughnessCoeff, MassUnits.mg, None, darcy_weisbach)")], silent=True),
+    dict(name="status-lookup-table", file=EIO,
+         old="                    status[status <= 2] = 0\n                    status[status == 3] = 1\n                    status[status >= 5] = 1\n                    status[status == 4] = 2\n",
+         new="                    status = np.array([0, 0, 0, 1, 2, 1, 1, 1])[status.astype(int)]\n", silent=True),
+    dict(name="status-masks-computed-first", file=EIO,
+         old="                    status[status <= 2] = 0\n                    status[status == 3] = 1\n                    status[status >= 5] = 1\n                    status[status == 4] = 2\n",
+         new="                    closed, active = status <= 2, status == 4\n                    status[~closed] = 1\n                    status[closed] = 0\n                    status[active] = 2\n", silent=True),
+    dict(name="quality-parameter-from-a-table", file=EIO,
+         old="                if self.quality_type is QualType.Chem:\n"
+             "                    self.results.node['quality'] = QualParam.Concentration._to_si(self.flow_units, df['quality'], mass_units=self.mass_units)\n"
+             "                    self.results.link['quality'] = QualParam.Concentration._to_si(self.flow_units, df['linkquality'], mass_units=self.mass_units)\n"
+             "                elif self.quality_type is QualType.Age:\n"
+             "                    self.results.node['quality'] = QualParam.WaterAge._to_si(self.flow_units, df['quality'], mass_units=self.mass_units)\n"
+             "                    self.results.link['quality'] = QualParam.WaterAge._to_si(self.flow_units, df['linkquality'], mass_units=self.mass_units)\n"
+             "                else:\n",
+         new="                qparam = {QualType.Chem: QualParam.Concentration, QualType.Age: QualParam.WaterAge}.get(wqopt)\n"
+             "                if qparam is not None:\n"
+             "                    for tab, blk in ((self.results.node, 'quality'), (self.results.link, 'linkquality')):\n"
+             "                        tab['quality'] = to_si(self.flow_units, df[blk], qparam, self.mass_units)\n"
+             "                else:\n", silent=True),
+    # ... while what the old statement-shaped rule caught, and what it could not see, is caught
+    dict(name="valve-loop-converts-tcv", file=EIO,
+         old="                setting[:, linktype == EN.PRV] = to_si(self.flow_units, setting[:, linktype == EN.PRV], HydParam.Pressure)\n"
+             "                setting[:, linktype == EN.PSV] = to_si(self.flow_units, setting[:, linktype == EN.PSV], HydParam.Pressure)\n"
+             "                setting[:, linktype == EN.PBV] = to_si(self.flow_units, setting[:, linktype == EN.PBV], HydParam.Pressure)\n",
+         new="                for vt in (EN.PRV, EN.PSV, EN.TCV):\n                    sel = linktype == vt\n"
+             "                    setting[:, sel] = to_si(self.flow_units, setting[:, sel], HydParam.Pressure)\n", rule="R-C03-1"),
+    dict(name="named-mask-misses-plain-pipes", file=EIO,
+         old="                headloss[:, linktype < 2] = to_si(self.flow_units, headloss[:, linktype < 2], HydParam.HeadLoss) # Pipe or CV\n",
+         new="                is_pipe = linktype < EN.PIPE\n                headloss[:, is_pipe] = to_si(self.flow_units, headloss[:, is_pipe], HydParam.HeadLoss)\n", rule="R-C03-1"),
+    dict(name="conversion-read-from-another-link-type", file=EIO, old="setting[:, linktype == EN.PSV] = to_si(self.flow_units, setting[:, linktype == EN.PSV], HydParam.Pressure)",
+         new="setting[:, linktype == EN.PSV] = to_si(self.flow_units, setting[:, linktype == EN.PRV], HydParam.Pressure)", rule="R-C03-1"),
+    dict(name="pipe-headloss-converted-twice", file=EIO, old="headloss[:, linktype >= 2] = to_si(self.flow_units, headloss[:, linktype >= 2], HydParam.Length)",
+         new="headloss[:, linktype >= 1] = to_si(self.flow_units, headloss[:, linktype >= 1], HydParam.Length)", rule="R-C03-1"),
+    dict(name="converted-with-default-units", file=EIO, old="self.results.link['velocity'] = HydParam.Velocity._to_si(self.flow_units, df['velocity'])",
+         new="self.results.link['velocity'] = HydParam.Velocity._to_si(FlowUnits.SI, df['velocity'])", rule="R-C03-1"),
+    dict(name="roughness-flag-dropped", file=EIO, old="HydParam.RoughnessCoeff, \n                                                darcy_weisbach=darcy_weisbach)", new="HydParam.RoughnessCoeff)", rule="R-C03-1"),
+    dict(name="age-converted-as-concentration", file=EIO, old="self.results.link['quality'] = QualParam.WaterAge._to_si(self.flow_units, df['linkquality'], mass_units=self.mass_units)",
+         new="self.results.link['quality'] = QualParam.Concentration._to_si(self.flow_units, df['linkquality'], mass_units=self.mass_units)", rule="R-C03-1"),
+    dict(name="status-table-maps-xflow-to-active", file=EIO,
+         old="                    status[status <= 2] = 0\n                    status[status == 3] = 1\n                    status[status >= 5] = 1\n                    status[status == 4] = 2\n",
+         new="                    status = np.array([0, 0, 0, 1, 2, 2, 1, 1])[status.astype(int)]\n", rule="R-C03-3"),
     dict(name="inp-written-in-default-units", file=ESIM, old="units=self._wn.options.hydraulic.inpfile_units, version=version)", new="version=version)", rule="R-C03-2"),
     dict(name="length-for-head-preserving", file=EIO, old="self.results.node['head'] = HydParam.HydraulicHead._to_si(self.flow_units, df['head'])",
          new="self.results.node['head'] = HydParam.Length._to_si(self.flow_units, df['head'])", silent=True),
